@@ -321,6 +321,46 @@ CLAIMED.update({
                   "real lance crate; TLC trace validation"),
 })
 
+CLAIMED.update({
+    "C39": dict(category="model_checking",
+        text="TLC model-checks MemWal.tla: the MemWAL list of every table version (region, generation, state Open<Sealed<Flushed<Merged, owner) "
+             "under 2-3 writers whose handles are pinned at stale read versions; each API function builds its UpdateMemWalState / "
+             "Update{mem_wal_to_merge} transaction as the code does, and commit applies the transcribed MemWAL arms of check_txn and "
+             "update_mem_wal_index_in_indices_list. The intended design satisfies EachGenerationOnce, Consecutive, OnlyLatestOpen, StateMonotone, "
+             "TrimmedNeverReappears, NoTwoCommitsOnSameGeneration and OwnerChangesSerialise on all histories of the bound. TLC prints the "
+             "histories of the as-built design with the findings it predicts; a seeded stratified subset (every predicted finding represented) "
+             "is replayed on real datasets through stale handles, and TLC judges every recorded step: result class, raw decoded mem_wal_list, "
+             "rows and fragments must equal the prediction, the seven invariants are evaluated on the observed history.",
+        design_ref="DESIGN.md 3.6, 5 (C39), 8 (#11), Appendix A (M1, M2)",
+        note="trusted: TLC; the JSON projection of the raw MemWalIndexDetails list; concurrency = stale read version + commit order; honest "
+             "expected-owner arguments; no user index (trim's index catch-up rule not exercised); create_mem_wal_generation is outside the "
+             "modelled API; known finding: trim removes the newest generation of a region",
+        technique="TLA+ state machine + TLC (intended design exhaustive for the bound; as-built design for history generation); TLC-generated "
+                  "histories replayed on the implementation; TLC trace validation with conformance and invariant judgement"),
+    "C20": dict(category="model_checking",
+        text="TLC checks on spec/Pruning.tla that zone-map, bloom-filter and n-gram answers cover every matching row: laws ZoneMapSound / "
+             "BloomSound / NgramSound over all zones of <=3 cells and all accepted predicates (=, ranges, IN, BETWEEN, IS NULL; contains over a "
+             "4-character alphabet with a multibyte character), and a state machine (append, delete, build, optimize, query) with "
+             "IndexedScanEqualsFullScan. The real indices are trained through create_index on tables that hold every zone of the universe and "
+             "on index histories; TLC judges each scan with/without the index and each direct ScalarIndex::search answer against Sql3VL!Eval "
+             "(IndexedScanEqualsEval, SearchSuperset). The zone-address, short-query and no-trigram defects are known findings matched by class.",
+        design_ref="DESIGN.md 3.9, 5 (C20)",
+        note="values are small model values embedded order-preservingly into int32/int64/utf8/float32/float64 (float = IEEE total order, "
+             "calibrated each run); bloom false-positive rate is not a property; quick tier samples size-3 float/utf8 zones and predicates",
+        technique="TLA+ laws + state machine + TLC; zone-universe and history replay on real indices; TLC trace validation with named deviations"),
+    "C29": dict(category="model_checking",
+        text="TLC checks on spec/Pruning.tla that a page/zone decided from min/max/null_count/nan_count has no matching row: PageStatsSound "
+             "(legacy page statistics + interval simplification, strong 3-valued form over all pages of <=3 cells and the depth-2 predicate "
+             "grammar), PageStatsWideningSound (truncated bounds), ZoneMapSound. Legacy tables written with max_rows_per_group = page size are "
+             "scanned with use_stats(true/false) (plan checked to contain LancePushdownScan) and zone-map tables with/without the index; TLC "
+             "judges every result against Sql3VL!Eval (StatsScanEqualsEval). NaN-ignoring float statistics and constant pages with nulls are "
+             "known findings matched by class.",
+        design_ref="DESIGN.md 3.9, 5 (C29)",
+        note="legacy preconditions: no NULL in primitive columns, no empty string; lance-encoding block statistics prune nothing; float order "
+             "calibrated each run; quick tier samples predicates and size-3 float/utf8 pages",
+        technique="TLA+ interval-abstraction laws + TLC; page-universe replay on legacy tables and zone-map indices; TLC trace validation"),
+})
+
 PENDING_REASON = "not yet bound to the implementation by a registered check in this snapshot (see DESIGN.md status table)"
 
 ALL = ["C%02d" % i for i in range(1, 44)]
